@@ -178,6 +178,16 @@ def handleWellPosed (j : Json) : R Json := do
   let els ← listOf elementOf (← getF j "els")
   pure (Json.mkObj [("wp", Json.bool (wellPosed els))])
 
+def handleSAG (j : Json) : R Json := do
+  let els ← listOf aelemOf (← getF j "els")
+  let wd ← boolOf (← getF j "dist")
+  let g := stochAtomGraph els wd
+  pure (Json.mkObj [
+    ("nodes", Json.arr (g.nodes.map fun n => Json.arr #[natToJson n.id, natToJson n.atom.z, Json.num (JsonNumber.fromInt n.atom.charge),
+        Json.bool n.atom.arom, optRatToJson n.mn, optRatToJson n.mw]).toArray),
+    ("edges", Json.arr (g.edges.map fun e => Json.arr #[natToJson e.src, natToJson e.dst, natToJson e.bond, ratToJson e.static,
+        ratToJson e.stochastic, ratToJson e.termination, ratToJson e.transition]).toArray)])
+
 def handle (j : Json) : R Json := do
   let op ← strOf (← getF j "op")
   match op with
@@ -191,6 +201,7 @@ def handle (j : Json) : R Json := do
   | "PARSE" => handleParse j
   | "RGRAPH" => handleRGraph j
   | "WELLPOSED" => handleWellPosed j
+  | "SAG" => handleSAG j
   | "ASSIGN" => handleAssign j
   | "COMPATMAT" => handleCompatMat j
   | _ => throw s!"unknown op {op}"
